@@ -4,6 +4,7 @@ import (
 	"fmt"
 	"math"
 	"sync/atomic"
+	"unsafe"
 
 	"go.uber.org/thriftrw/protocol/stream"
 	"go.uber.org/thriftrw/wire"
@@ -114,7 +115,11 @@ func ReadStream(r stream.Reader, t byte) (*V, error) {
 		// fields, map keys and elements): same bytes on the wire, a separate code path
 		if readAlt.Add(1)%2 == 0 {
 			s, err := r.ReadString()
-			return &V{T: TBinary, Bin: []byte(s)}, err
+			if len(s) == 0 {
+				return &V{T: TBinary, Bin: []byte{}}, err
+			}
+			// no copy here either: look at the string's own bytes when the value is dumped
+			return &V{T: TBinary, Bin: unsafe.Slice(unsafe.StringData(s), len(s))}, err
 		}
 		x, err := r.ReadBinary()
 		return &V{T: TBinary, Bin: x}, err
